@@ -189,6 +189,20 @@ def r13_1(chk):
 ID_PARAMS = {"unique_id", "identifier", "item"}
 
 
+def base_membership(chk, rule):
+    """the base-class membership test must stay one equality on the full identifier (used by R13.2 and, for the
+    resume clause of apply_to, by R19.5)"""
+    # the base-class membership test states the exact-match belief: it must stay one equality on the full identifier
+    bm = chk.repo.module(DS)
+    cf = bm.func("DataStoreABC.__contains__")
+    idp = [p for p in params_of(cf) if p != "self"][0]
+    rets = [r for r in walk_no_nested(cf) if isinstance(r, ast.Return) and r.value is not None]
+    cmps = [c for r in rets for c in ast.walk(r.value) if isinstance(c, ast.Compare)]
+    idnames = derived_names(cf, {idp})
+    exact = len(cmps) == 1 and isinstance(cmps[0].ops[0], ast.Eq) and norm(cmps[0].left).endswith(".unique_id") and isinstance(cmps[0].comparators[0], ast.Name) and cmps[0].comparators[0].id in idnames and not any(isinstance(b, ast.BoolOp) for r in rets for b in ast.walk(r.value))
+    chk.decide(exact, rule, key(bm, "DataStoreABC.__contains__", "membership is one exact comparison"), bm.loc(cf), "any(m.unique_id == identifier for m in self)", f"membership is decided by {[norm(c) for c in cmps]}: an identifier also 'is in' the store when only a differently located record (e.g. not_completed/<name>) matches, so append-mode writes of it are refused and a resumed run stops")
+
+
 def r13_2(chk):
     chk.rule("R13.2", "identifier matching is exact or anchored: no `<x>.endswith/startswith(<identifier>)`, no `<non-constant> in <identifier>`, no `<identifier>.replace(<non-constant>, ...)` (unanchored edits/matches change or hit other records)")
     n = 0
@@ -223,15 +237,7 @@ def r13_2(chk):
                     n += 1
                     if not hits:
                         chk.ok("R13.2", key(m, q, "identifier ops"), m.loc(fn), "only exact / anchored identifier operations")
-    # the base-class membership test states the exact-match belief: it must stay one equality on the full identifier
-    bm = chk.repo.module(DS)
-    cf = bm.func("DataStoreABC.__contains__")
-    idp = [p for p in params_of(cf) if p != "self"][0]
-    rets = [r for r in walk_no_nested(cf) if isinstance(r, ast.Return) and r.value is not None]
-    cmps = [c for r in rets for c in ast.walk(r.value) if isinstance(c, ast.Compare)]
-    idnames = derived_names(cf, {idp})
-    exact = len(cmps) == 1 and isinstance(cmps[0].ops[0], ast.Eq) and norm(cmps[0].left).endswith(".unique_id") and isinstance(cmps[0].comparators[0], ast.Name) and cmps[0].comparators[0].id in idnames and not any(isinstance(b, ast.BoolOp) for r in rets for b in ast.walk(r.value))
-    chk.decide(exact, "R13.2", key(bm, "DataStoreABC.__contains__", "membership is one exact comparison"), bm.loc(cf), "any(m.unique_id == identifier for m in self)", f"membership is decided by {[norm(c) for c in cmps]}: an identifier also 'is in' the store when only a differently located record (e.g. not_completed/<name>) matches, so append-mode writes of it are refused and a resumed run stops")
+    base_membership(chk, "R13.2")
     chk.floor("R13.2", 10, "methods taking an identifier in the two store modules")
     probe = ast.parse("def f(self, unique_id):\n    for m in self:\n        if m.unique_id.endswith(unique_id): pass\n").body[0]
     idn = derived_names(probe, {"unique_id"})
